@@ -349,6 +349,67 @@ def _consistent(conds) -> bool:
     return not any(c[0] not in ('opaque', 'opaque-not') and C.mk_not(c) in s for c in s)
 
 
+def _specialise_module_level_reducers(repo, gp: FuncInfo, context_names) -> ast.FunctionDef:
+    """The recursive helper may live at module level and receive what a closure would read - the train list, the pair
+    function, the keyword dictionary - as parameters that every recursive call hands on unchanged.  Such a helper is the
+    closure with those parameters bound: in a copy of the enclosing function it becomes a nested definition whose
+    pass-through parameters are the enclosing function's own names (dropped from the signature and from every call)."""
+    import copy
+    mod = repo.module(gp.module)
+    node = gp.node
+    cands = []
+    for name, h in mod.functions.items():
+        if h is gp or '.' in name or h.cls:
+            continue
+        hn = h.node
+        self_calls = [c for c in ast.walk(hn) if isinstance(c, ast.Call) and isinstance(c.func, ast.Name) and c.func.id == name]
+        sites = [c for c in ast.walk(node) if isinstance(c, ast.Call) and isinstance(c.func, ast.Name) and c.func.id == name]
+        if not self_calls or not sites:
+            continue
+        ps = [a.arg for a in hn.args.args]
+        if hn.args.vararg or hn.args.kwarg or hn.args.kwonlyargs or hn.args.defaults:
+            continue
+        if any(c.keywords or len(c.args) != len(ps) or any(isinstance(a, ast.Starred) for a in c.args) for c in self_calls + sites):
+            continue
+        drop = {}
+        for k, pname in enumerate(ps):
+            outer = {ast.unparse(c.args[k]) for c in sites}
+            if len(outer) == 1 and next(iter(outer)) in context_names \
+                    and all(isinstance(c.args[k], ast.Name) and c.args[k].id == pname for c in self_calls) \
+                    and not any(isinstance(n, ast.Name) and n.id == pname and isinstance(n.ctx, ast.Store) for n in ast.walk(hn)):
+                drop[k] = next(iter(outer))
+        if drop:
+            cands.append((name, hn, ps, drop))
+    if not cands:
+        return node
+    node = copy.deepcopy(node)
+    new_defs = []
+    for name, hn, ps, drop in cands:
+        h2 = copy.deepcopy(hn)
+        ren = {ps[k]: v for k, v in drop.items()}
+        inner_names = {n.id for n in ast.walk(h2) if isinstance(n, ast.Name)} | set(ps)
+        if any(v in inner_names and v not in ren.values() or (v in ps and ps.index(v) not in drop) for v in ren.values()):
+            continue
+        for n in ast.walk(h2):
+            if isinstance(n, ast.Name) and n.id in ren:
+                n.id = ren[n.id]
+        h2.args.args = [a for k, a in enumerate(h2.args.args) if k not in drop]
+        for c in ast.walk(h2):
+            if isinstance(c, ast.Call) and isinstance(c.func, ast.Name) and c.func.id == name:
+                c.args = [a for k, a in enumerate(c.args) if k not in drop]
+        for c in ast.walk(node):
+            if isinstance(c, ast.Call) and isinstance(c.func, ast.Name) and c.func.id == name:
+                c.args = [a for k, a in enumerate(c.args) if k not in drop]
+        new_defs.append(h2)
+    # (`**kw` of the helper's leaf call: the keyword dictionary by its own name, as in a closure)
+    pos = 0
+    while pos < len(node.body) and isinstance(node.body[pos], ast.Expr) and isinstance(node.body[pos].value, ast.Constant):
+        pos += 1
+    node.body[pos:pos] = new_defs
+    ast.fix_missing_locations(node)
+    return node
+
+
 def r_pair_sum(ctx, rule: str = 'R06.2', rule_count: str = 'R06.3') -> List[Ob]:
     repo = ctx.repo
     gp = repo.func('pyspike.generic', '_generic_profile_multi')
@@ -359,7 +420,8 @@ def r_pair_sum(ctx, rule: str = 'R06.2', rule_count: str = 'R06.3') -> List[Ob]:
         obs.append(inconclusive(rule, "_generic_profile_multi(trains, pair function, ..., **kwargs)", gp.loc(), str(params), construct=fn))
         return obs
     trains, pairfn, kw = params[0], params[1], gp.node.args.kwarg.arg
-    nested = {n.name: n for n in gp.node.body if isinstance(n, ast.FunctionDef)}
+    gp_node = _specialise_module_level_reducers(repo, gp, (trains, pairfn, kw))
+    nested = {n.name: n for n in gp_node.body if isinstance(n, ast.FunctionDef)}
     # recursive helpers: the nested functions that can reach themselves through calls of nested functions (a helper that
     # calls itself, or two helpers that call each other - `summed(pairs)` halving and handing both halves to `combine(a, b)`,
     # which calls `summed` on each)
@@ -427,7 +489,7 @@ def r_pair_sum(ctx, rule: str = 'R06.2', rule_count: str = 'R06.3') -> List[Ob]:
     # the enclosing function
     t_g = "_generic_profile_multi: the returned profile is the sum over the whole pair list, returned together with the number of pairs"
     try:
-        evg = _Eval(gp.node, recursive, trains, pairfn, kw, plain_helpers).run([])
+        evg = _Eval(gp_node, recursive, trains, pairfn, kw, plain_helpers).run([])
     except _Undecided as e:
         obs.append(inconclusive(rule, "_generic_profile_multi: every path can be evaluated", gp.loc(), str(e), construct=fn))
         return obs
@@ -467,7 +529,7 @@ def r_pair_sum(ctx, rule: str = 'R06.2', rule_count: str = 'R06.3') -> List[Ob]:
         good = False
         if cnt is not None:
             e = cnt
-            once = _once_assigned(gp.node)
+            once = _once_assigned(gp_node)
             k = 0
             while isinstance(e, ast.Name) and e.id in once and k < 4:
                 e, k = once[e.id], k + 1
